@@ -10,12 +10,12 @@ import (
 )
 
 type Env struct {
-	tr    *FnCtx
-	vars  map[string]*Val
-	st    *State
-	old   *State
-	pkg   *types.Package
-	depth int
+	tr       *FnCtx
+	vars     map[string]*Val
+	st       *State
+	old      *State
+	pkg      *types.Package
+	depth    int
 	allocOld string
 	assuming bool // the expression is being assumed (callee postcondition), not proved
 }
@@ -122,6 +122,10 @@ func (e *Env) objVal(obj types.Object) *Val {
 		return v
 	case *types.Var:
 		return &Val{T: o.Type(), A: e.tr.globalAtoms(o.Pkg().Path()+"."+o.Name(), o.Type())}
+	case *types.Func:
+		if f := e.tr.W.Prog.FuncValue(o); f != nil {
+			return &Val{T: o.Type(), A: []string{e.tr.fnConst(f)}}
+		}
 	}
 	e.fail("unsupported object %v", obj)
 	return nil
@@ -560,6 +564,12 @@ func (e *Env) call(n ECall) *Val {
 			return intVal("(str_len " + v.one() + ")")
 		}
 		e.fail("len of %v", v.T)
+	case "domain": // key set of a map as a ghost set (for ghost snapshots: ghost $g := domain(m))
+		v := arg(0)
+		if _, ok := v.T.Underlying().(*types.Map); !ok {
+			e.fail("domain needs a map")
+		}
+		return &Val{T: nil, GhostElem: tBool, A: []string{sel(e.tr.cur(e.st, e.tr.W.mapDomComp(v.T)), v.one())}}
 	case "card": // cardinality of a ghost key set ($seen)
 		v := arg(0)
 		if v.T != nil {
@@ -599,6 +609,16 @@ func (e *Env) call(n ECall) *Val {
 			e.fail("wf needs a slice")
 		}
 		return boolVal(and("(<= 0 "+v.A[1]+")", "(<= 0 "+v.A[2]+")", "(<= "+v.A[2]+" "+v.A[3]+")", "(<= 0 "+v.A[0]+")", implies(eq(v.A[0], "0"), and(eq(v.A[2], "0"), eq(v.A[3], "0")))))
+	case "sinceLock": // two-state formula with "old" meaning the state in which this goroutine last acquired the lock
+		ne := *e
+		if e.st.LockSnap != nil {
+			ne.old = e.st.LockSnap
+			ne.allocOld = e.tr.cur(e.st.LockSnap, compAlloc)
+		}
+		if len(n.Args) != 1 {
+			e.fail("sinceLock needs one argument")
+		}
+		return ne.eval(n.Args[0])
 	case "wasAllocated":
 		v := arg(0)
 		return boolVal("(isold " + v.A[0] + " " + e.allocOld + ")")
@@ -707,7 +727,10 @@ func (e *Env) call(n ECall) *Val {
 				pat = sel(cur, a)
 			}
 		}
-		return boolVal("(forall ((" + a + " Int)) (! (=> " + in(a) + " (and " + in("("+pf+" "+a+")") + " " + and(eqs...) + ")) :pattern (" + pat + ")))")
+		// a rearrangement is injective: two positions of the result never stem from the same old position
+		b := a + "b"
+		inj := "(forall ((" + a + " Int) (" + b + " Int)) (! (=> (and " + in(a) + " " + in(b) + " (= (" + pf + " " + a + ") (" + pf + " " + b + "))) (= " + a + " " + b + ")) :pattern ((" + pf + " " + a + ") (" + pf + " " + b + "))))"
+		return boolVal(and("(forall (("+a+" Int)) (! (=> "+in(a)+" (and "+in("("+pf+" "+a+")")+" "+and(eqs...)+")) :pattern ("+pat+")))", inj))
 	case "unchangedHeap":
 		e.tr.assumingPost = e.assuming
 		r := e.tr.unchangedHeap(e.st, e.old, nil, e.allocOld)
@@ -792,11 +815,12 @@ func (tr *FnCtx) unchangedHeap(st, old *State, except map[string]bool, allocOld 
 func sortedKeysS(m map[string]string) []string { return sortedKeys(m) }
 
 // resolveComps maps a pattern from a contract to concrete components.
-//   PipelineJob.Canceled          field (all atoms with that path prefix) of a struct of the contract's package
-//   definition.PipelineDef.Env    field of a struct of another local package
-//   mem(T)                        cells of pointee type T
-//   map(T)                        domain and values of map type T
-//   $ghost
+//
+//	PipelineJob.Canceled          field (all atoms with that path prefix) of a struct of the contract's package
+//	definition.PipelineDef.Env    field of a struct of another local package
+//	mem(T)                        cells of pointee type T
+//	map(T)                        domain and values of map type T
+//	$ghost
 func (tr *FnCtx) resolveComps(pat string, pkg *types.Package) []Comp {
 	pat = strings.TrimSpace(pat)
 	if strings.HasPrefix(pat, "$") {
